@@ -17,6 +17,12 @@ class LogixScenario:
         self.b = Bench(rng)
         label, fw, micro, large = config or rng.choice(CONFIGS)
         self.label, self.fw, self.micro, self.large = label, fw, micro, large
+        if project is None and size == "fixture":
+            import os
+            from . import common
+            fx = os.path.join(common.REPO, "tests", "offline", "all_tags.json")
+            project = rpj.load_fixture(fx, rng, fw=fw) if os.path.exists(fx) and not micro else None
+            size = "medium"
         self.prj = project or rpj.generate_project(rng, size, fw=fw, micro800=micro)
         ident = devices.random_identity(rng, micro800=micro, major=fw)
         ident.vendor, ident.product_type = 1, 0x0E
